@@ -107,4 +107,19 @@ ClimateNum(mid, m, T) ==
   LET f(z) == From1d(InnerModel(mid, To1d(z, T, <<>>)), Signature(m), T, m.dims[1], m.dims[2], m.torus)
   IN AddMI(f(m), ActMI(FlipLat, f(ActMI(FlipLat, m))))
 ClimateCommutes(mid, m, T) == EqMI(ClimateNum(mid, ActMI(FlipLat, m), T), ActMI(FlipLat, ClimateNum(mid, m, T)))
+
+(* ... with constant fields: the 2-D input carries nc constant channels after the C*T dynamic ones of a type; the 1-D inner
+   model READS the constant rows (they reach every output entry through the channel mixing and the global term of InnerModel)
+   but returns the dynamic rows only, which is the layout From1d expects for the (dynamic) output signature *)
+RowsD(m, u, T, csig) == m.dims[2] * Len(Sources(m, u, T, csig)) * T
+InnerModelC(mid, y, m, T, csig) ==
+  LET z == InnerModel(mid, y) IN
+  [z EXCEPT !.blks = Eager([i \in 1..Len(z.order) |->
+      LET rd == RowsD(m, z.order[i], T, csig) IN
+      [lead |-> <<rd>>, val |-> Eager(SubSeq(z.blks[i].val, 1, rd * m.dims[1]))]])]
+DynSig(m, csig) == [i \in 1..Len(m.order) |-> <<m.order[i], m.blks[i].lead[1] - NConstOf(csig, m.order[i])>>]
+ClimateNumC(mid, m, T, csig) ==
+  LET f(z) == From1d(InnerModelC(mid, To1d(z, T, csig), z, T, csig), DynSig(m, csig), T, m.dims[1], m.dims[2], m.torus)
+  IN AddMI(f(m), ActMI(FlipLat, f(ActMI(FlipLat, m))))
+ClimateCommutesC(mid, m, T, csig) == EqMI(ClimateNumC(mid, ActMI(FlipLat, m), T, csig), ActMI(FlipLat, ClimateNumC(mid, m, T, csig)))
 =============================================================================
